@@ -1,8 +1,36 @@
-//! C02 — not built yet.
+//! C02 — BFV/BGV evaluation is an exact ring homomorphism for every operation program (engine E2).
+use crate::e2::*;
 use crate::engine::*;
 
-pub fn describe(_rep: &Report) {}
+pub fn describe(rep: &Report) {
+    rep.set_rule(
+        "E2 explicit-state exploration on the real Evaluator: states = real ciphertext + shadow polynomial in Z_t[X]/(X^N+1); \
+         phase A = every program of depth <= 2 over (6 messages x {pk, sk+seed}) x {negate, square, relinearize (standard / all-power keys), \
+         to/from NTT, mod_switch_to_next, add, sub, multiply, add/sub/multiply_plain x 8 plain operands x {coeff, NTT}, add_many, multiply_many}, \
+         deduplicated by (level, size, representation, factor, shadow); phase B = closure of the abstract key (level, size, representation, factor) \
+         to fixpoint, every (operation, abstract operand tuple) executed on witnesses. Judged per transition: acceptance of well-typed operations, \
+         predicted metadata (size a+b-1 / max / 2, level, representation, BGV factor product / q_last^-1), and decrypt == shadow whenever the \
+         a-priori noise bound is below the threshold. distinct_nontrivial = distinct concrete states + abstract states.",
+    );
+    rep.assume("a-priori noise calculus of e2.rs (upper bounds in bits) decides when decryption is demanded");
+    rep.assume("entropy scripted by hook H1 (Real noise), one secret key per parameter set");
+    rep.assume("refusals of ill-typed operands are judged by C06, budgets by C07 on the same exploration");
+}
 
-pub fn sections(_cfg: &RunCfg) -> Vec<Box<dyn AnySection>> {
-    vec![]
+pub fn sections(cfg: &RunCfg) -> Vec<Box<dyn AnySection>> {
+    param_sets(cfg)
+        .into_iter()
+        .map(|(name, spec, depth, abs)| {
+            Box::new(E2Section {
+                name,
+                spec,
+                oracles: Oracles { ring: true, forms: false, budget: false },
+                judged: vec!["ring", "meta", "accept"],
+                thorough: cfg.thorough(),
+                seed: cfg.seed,
+                depth,
+                abstract_closure: abs,
+            }) as Box<dyn AnySection>
+        })
+        .collect()
 }
